@@ -257,6 +257,9 @@ pub fn chain_space() -> Space<ChainSpec> {
         d = d.v("digitalSignature only", move |c: &mut ChainSpec| c.cas[j].ku = Some(vec![0]));
         d = d.v("cRLSign only", move |c: &mut ChainSpec| c.cas[j].ku = Some(vec![6]));
         d = d.v("all nine", move |c: &mut ChainSpec| c.cas[j].ku = Some((0..9).collect()));
+        d = d.v("cRLSign twice", move |c: &mut ChainSpec| c.cas[j].ku = Some(vec![6, 6]));
+        d = d.v("keyCertSign, cRLSign, keyCertSign", move |c: &mut ChainSpec| c.cas[j].ku = Some(vec![5, 6, 5]));
+        d = d.v("keyAgreement twice + digitalSignature", move |c: &mut ChainSpec| c.cas[j].ku = Some(vec![4, 4, 0]));
         dims.push(d);
         let mut d = Dim::new(Box::leak(format!("{}.window", who).into_boxed_str()));
         d = d.v("not yet valid", move |c: &mut ChainSpec| c.cas[j].win = Win::NotYet);
